@@ -122,7 +122,8 @@ fn source(kind: &str, len: usize, q: i64) -> Vec<f64> {
 pub fn replay(args: &Args) {
     let cases = read_ndjson(args.req("in"));
     let mut rep = Report::new(args.get("prop").unwrap_or("C09"), args.req("out"));
-    for v in &cases {
+    for v in cases {
+        let v = &v;
         if get_str(v, "op") != "iter" {
             continue;
         }
